@@ -398,7 +398,10 @@ def translate(ctx):
 # generators
 # --------------------------------------------------------------------------------------------------------------
 RULE = ("every groove class (20 parametric classes from a catalogue of feasible parameter sets, lengths scaled log-uniformly, one "
-        "parameter jittered; SplineGroove with random symmetric polylines for two rolls) x pad angle matching the roll count "
+        "parameter jittered; two rolls: SplineGroove with random mirror symmetric polylines (12 %) and SKEW SplineGrooves "
+        "(12 %, 25 % of the grooves mounted in a remount history: the deepest point off the middle, a steep and a shallow "
+        "flank - random polylines of 3..9 vertices, a quarter of them undercut on one side, or the contour of a catalogue "
+        "groove warped by t -> t + a (1 - t^2), |a| = 0.12..0.45; usable width = the extent or 60..97 % of it) x pad angle matching the roll count "
         "(0 deg two rolls, 30 deg three) x gap log-uniform 1e-3..0.5 of the groove width (two rolls: also exactly 0) x incoming "
         "profile (round / box / diamond / square, taller than the pass) x prescribed width of the out profile given by a width "
         "hook on a throw-away pass subclass: default (no width model), under-filled, exactly the usable width, into the face "
@@ -430,6 +433,13 @@ ASSUMPTIONS = [
     "cache before the usable cross-section is an assumption of `recompute`, validated by K (e) on every sprung / rigid-spring "
     "scenario; WHAT the gap hook answers is an input of the model (an implementation that derives the gap from a stale memo "
     "gives a wrong input, see notes/C08.md finding 2); the other cached hooks and convergence of the loop are not modelled",
+    "clause `symmetry`: 'the symmetry of the pass' is read as: two rolls - the half turn about the rolling axis (both rolls "
+    "are the same roll, the lower one is the upper one turned by 180 degrees; for a skew groove this is the only symmetry), "
+    "three rolls - the turn by 120 degrees; a groove that is mirror symmetric about its centre line adds the mirror image at "
+    "the vertical axis (`*-mirror-symmetry`)",
+    "clause `two-not-contained-in-roll-contours`: 'the opening formed by the roll contours at the set gap' of a two-roll pass is "
+    "also built from the groove alone (contour lifted by gap / 2, the same contour turned by 180 degrees), independently of "
+    "what `contour_lines` of any pass returns",
     "scenario clause `used-pass-raises`: 'for a given groove, gap and width it is the same shape' is also read as: a pass object "
     "that was used before does not raise from the cross-section code where a pass given the identical final set-up at "
     "construction solves",
@@ -473,6 +483,27 @@ WIDTH_KINDS = ["default", "under", "usable", "pad", "extent", "over-lt-1pc", "ov
 # kinds whose classification does not depend on the gap of a two-roll pass and stays clear of the 1 % band: usable when the
 # gap of the pass is not known beforehand (gap given by a hook that settles during the solution)
 SAFE_KINDS = ["default", "under", "usable", "near-usable-below", "near-usable-above"]
+
+# SKEW grooves (not mirror symmetric about their centre line: a steep and a shallow flank, the deepest point off the
+# middle), as a SplineGroove read from a drawing gives them.  A two-roll pass on such a groove is point symmetric and nothing
+# else; every mirror symmetric groove hides the difference between "the lower roll is the upper roll turned by 180 degrees"
+# and "the lower contour is the upper one mirrored at the pass line".  (desc, gap / usable width, width kinds)
+SKEW_A = {"cls": "SplineGroove", "shape": "skew-polyline", "usable_width": 30.0,
+          "points": [[-20.0, 0.0], [-16.0, 9.0], [-9.0, 12.0], [4.0, 8.0], [13.0, 3.0], [20.0, 0.0]]}
+SKEW_B = {"cls": "SplineGroove", "shape": "skew-smooth",
+          "points": [[0.03 * (t + 0.3 * (1 - t * t)), 0.012 * (1 - t * t)] for t in [-1 + i / 20 for i in range(41)]]}
+SKEW_CORPUS = [
+    (SKEW_A, 0.05, ["under", "usable", "pad", "extent", "default"]),
+    (SKEW_B, 0.1, ["default", "under", "near-usable-below"]),
+    (SKEW_A, 0.0, ["under", "default"]),
+]
+SKEW_SCENARIO_CORPUS = [
+    (SKEW_A, 0.06, "default", "config"),
+    (SKEW_B, 0.05, "under", "sprung"),
+    (SKEW_A, 0.04, "usable", "regap"),
+    (SKEW_B, 0.06, "default", "remount"),
+]
+
 
 # past failures first (see notes/C08.md): (which, class, kwargs, gap / usable width, width kind)
 CORPUS = [
@@ -553,22 +584,127 @@ HISTORY_CORPUS = [
      'width_kind': 'default',
      'in_profile': 'round',
      'in_height': 0.18622506140703948},
+    # a skew groove mounted on a two-roll pass that was solved with a mirror symmetric one, the gap left alone, and back
+    {'pass': 'two',
+     'groove': {'cls': 'CircularOvalGroove', 'kwargs': {'depth': 5.05, 'r1': 7, 'r2': 33, 'pad_angle': 0}},
+     'scenario': 'remount',
+     'steps': [{'op': 'new', 'gap': 2.0, 'width': None, 'kwargs': {}},
+               {'op': 'solve'},
+               {'op': 'mount', 'groove': SKEW_A, 'how': 'groove'},
+               {'op': 'set', 'attr': 'c08_width', 'value': 27.0, 'width_kind': 'under'},
+               {'op': 'solve'}],
+     'width_kind': 'default',
+     'in_profile': 'round',
+     'in_height': 32.0},
+    {'pass': 'two',
+     'groove': SKEW_A,
+     'scenario': 'remount',
+     'steps': [{'op': 'new', 'gap': 1.5, 'width': 33.0, 'kwargs': {}},
+               {'op': 'read', 'attr': 'contour_lines'},
+               {'op': 'mount', 'groove': {'cls': 'SplineGroove', 'shape': 'skew-polyline', 'usable_width': 30.0,
+                                          'points': [[20.0, 0.0], [16.0, 9.0], [9.0, 12.0], [-4.0, 8.0], [-13.0, 3.0], [-20.0, 0.0]][::-1]},
+                'how': 'roll'},
+               {'op': 'solve'}],
+     'width_kind': 'pad',
+     'in_profile': 'square',
+     'in_height': 33.0},
 ]
 
 
 def _build_groove(desc):
     import pyroll.core as pc
     if desc["cls"] == "SplineGroove":
-        return pc.SplineGroove(desc["points"], classifiers=("spline",))
+        return pc.SplineGroove(desc["points"], classifiers=("spline",), usable_width=desc.get("usable_width"))
     return getattr(pc, desc["cls"])(**desc["kwargs"])
 
 
-def _random_groove(rng, which, ctx, scale=None):
+def _label(desc):
+    """class name, for spline grooves with the way the polyline was made (`shape`)"""
+    return desc["cls"] + (":" + desc["shape"] if desc.get("shape") else "")
+
+
+def _skew_polyline(rng, s):
+    """a SKEW contour: faces at y = 0, the deepest point off the middle (one flank steep, the other shallow), 0..3 further
+    vertices on either flank (rising towards the deepest point, or at arbitrary heights), abscissae strictly increasing;
+    25 %: one flank undercut (the contour bulges beyond its end on ONE side: not z-monotone); 30 %: with pieces of the
+    faces at both ends (SplineGroove strips them) -> list of points"""
+    w, d = s * rng.uniform(10, 80), s * rng.uniform(2, 40)
+    hw = w / 2
+    xd = hw * rng.uniform(0.15, 0.8) * rng.choice([-1, 1])
+
+    def flank(x0, n):
+        """n vertices between the end of the face (x0, 0) and the deepest point (xd, d), in this order"""
+        rising = rng.random() < 0.6
+        p = rng.uniform(0.4, 1.0)
+        return [(x0 + (xd - x0) * t, d * (t ** p if rising else rng.uniform(0.05, 1.0)))
+                for t in sorted(rng.uniform(0.05, 0.95) for _ in range(n))]
+    left, right = flank(-hw, rng.randrange(0, 4)), flank(hw, rng.randrange(0, 4))[::-1]
+    pts = [(-hw, 0.0)] + left + [(xd, d)] + right + [(hw, 0.0)]
+    if rng.random() < 0.25:
+        bulge = (hw * rng.uniform(1.02, 1.3), d * rng.uniform(0.1, 0.5))
+        if rng.random() < 0.5:
+            pts.insert(-1, bulge)
+        else:
+            pts.insert(1, (-bulge[0], bulge[1]))
+    if rng.random() < 0.3:
+        pad = w * rng.uniform(0.05, 0.4)
+        pts = [(min(x for x, _ in pts) - pad, 0.0)] + pts + [(max(x for x, _ in pts) + pad, 0.0)]
+    return pts
+
+
+def _skew_warped(rng, s):
+    """the contour of a catalogue groove (two rolls: horizontal faces) between its edges, its abscissae warped by the
+    monotone map t -> t + a (1 - t^2) on [-1, 1] (a = +-0.12..0.45): the ends stay, the middle moves by a x half width -
+    a smooth contour of many vertices with a steep and a shallow flank, as a drawing gives it -> (points, usable width) | None"""
+    import numpy as np
+    import warnings
+    cls = rng.choice(sorted(CATALOGUE))
+    kw = {k: (v if k in ANGLES else v * s) for k, v in CATALOGUE[cls].items()}
+    kw["pad_angle"] = 0
+    try:
+        with warnings.catch_warnings():
+            warnings.simplefilter("ignore")
+            g = _build_groove({"cls": cls, "kwargs": kw})
+    except Exception:
+        return None
+    c = np.array(g.contour_line.coords)
+    inner = np.flatnonzero(c[:, 1] > 1e-9 * float(np.ptp(c, axis=0).max()))
+    if inner.size == 0 or inner[0] == 0 or inner[-1] == len(c) - 1:
+        return None                                  # no groove between the faces (FlatGroove)
+    c = c[inner[0] - 1: inner[-1] + 2]
+    hw, mid = (c[-1, 0] - c[0, 0]) / 2, (c[-1, 0] + c[0, 0]) / 2
+    t = (c[:, 0] - mid) / hw
+    a = rng.uniform(0.12, 0.45) * rng.choice([-1, 1])
+    x = mid + hw * (t + a * (1 - t * t))
+    pts = [(float(xx), float(yy)) for xx, yy in zip(x, c[:, 1])]
+    pts[0], pts[-1] = (pts[0][0], 0.0), (pts[-1][0], 0.0)
+    return cls, pts, min(float(g.usable_width), 2 * float(hw))
+
+
+def _random_groove(rng, which, ctx, scale=None, skew_p=0.12):
     """-> (desc, groove) ; desc is JSON-able and sufficient to rebuild the groove; `scale` = factor applied to the lengths
-    of the catalogue's parameter set (default: log-uniform 1e-3..1)"""
+    of the catalogue's parameter set (default: log-uniform 1e-3..1); `skew_p` = share of SKEW spline grooves (two rolls)"""
     import warnings
     s = 10 ** rng.uniform(-3, 0) if scale is None else scale
-    if which == "two" and rng.random() < 0.14:
+    u = rng.random()
+    desc = None
+    if which == "two" and u < skew_p:
+        # a groove that is NOT mirror symmetric about its centre line (a SplineGroove as read from a drawing): the pass is
+        # still point symmetric (both rolls are the same roll, the lower one turned by 180 degrees), the out profile must be
+        # the half-turn symmetric shape `Profile.from_groove` builds, not a mirror symmetric one
+        r = _skew_warped(rng, s) if rng.random() < 0.4 else None
+        shape, pts, uw0 = ("skew-" + r[0], r[1], r[2]) if r is not None else ("skew-polyline", _skew_polyline(rng, s), math.inf)
+        desc = {"cls": "SplineGroove", "points": [list(p) for p in pts], "shape": shape}
+        if rng.random() < 0.6:
+            # the usable part ends on the flanks (the rest of the contour acts as the face padding); without it the usable
+            # width is the extent SplineGroove finds
+            try:
+                with warnings.catch_warnings():
+                    warnings.simplefilter("ignore")
+                    desc["usable_width"] = min(float(_build_groove(desc).usable_width), uw0) * rng.uniform(0.6, 0.97)
+            except Exception:
+                pass
+    elif which == "two" and u < skew_p + 0.12:
         # arbitrary mirror-symmetric polyline with horizontal faces (z-monotone, y not monotone)
         n = rng.randrange(2, 9)
         w, d = s * rng.uniform(10, 80), s * rng.uniform(2, 40)
@@ -713,6 +849,7 @@ def eval_term(t, srcs, env):
     import numpy as np
     from shapely import Polygon, LineString, clip_by_rect
     from shapely.affinity import translate, rotate
+    from shapely.affinity import scale as scale_
     from pyroll.core.profile.profile import refine_cross_section
     k = t[0]
     if k == "src":
@@ -721,6 +858,8 @@ def eval_term(t, srcs, env):
         return translate(eval_term(t[1], srcs, env), xoff=pyexpr.py_eval(t[2], env), yoff=pyexpr.py_eval(t[3], env))
     if k == "rotate":
         return rotate(eval_term(t[1], srcs, env), angle=pyexpr.py_eval(t[2], env), origin=(0, 0))
+    if k == "scale":
+        return scale_(eval_term(t[1], srcs, env), xfact=pyexpr.py_eval(t[2], env), yfact=pyexpr.py_eval(t[3], env), origin=(0, 0))
     if k == "reverse":
         return LineString(_coords(eval_term(t[1], srcs, env))[::-1])
     if k == "concat":
@@ -818,6 +957,46 @@ def _opening(rp):
     return raw, region, polys, scale
 
 
+def _sd_area(a, b, size, limit):
+    """area of the symmetric difference of two polygons.  GEOS's floating-point overlay is not robust for NEARLY IDENTICAL
+    inputs (two triangles whose vertices differ in the last bit: intersection 0, union = both - thorough run, a three-roll
+    section that is the bare triangle of the three clips): a value above `limit` is therefore computed once more on a fixed
+    precision grid of 1e-12 x `size` (snap rounding, robust; a genuine difference of 1e-9 of the area is untouched by it) and
+    the smaller of the two counts"""
+    import shapely
+    d = a.symmetric_difference(b).area
+    if d > limit:
+        try:
+            d = min(d, shapely.symmetric_difference(a, b, grid_size=1e-12 * size).area)
+        except shapely.errors.GEOSException:
+            pass
+    return d
+
+
+def _ring_region(ring):
+    """(polygon of the ring, a valid region for containment tests) - as `_opening` treats the pass's own lines"""
+    from shapely import Polygon, make_valid
+    raw = Polygon(ring)
+    return raw, (raw if raw.is_valid else make_valid(raw))
+
+
+def _roll_opening(groove, gap):
+    """the opening of a TWO-roll pass written down from the statement, without asking the pass: the upper roll's contour is
+    the groove's contour lifted by half the gap; the lower roll is the SAME roll (a two-roll pass has one roll object
+    for both) turned by 180 degrees about the rolling axis, i.e. every contour point (z, y) of the upper roll appears as
+    (-z, -y) - in the order of a closed ring.  -> valid region"""
+    import numpy as np
+    up = np.array(groove.contour_line.coords)[:, :2] + np.array([0.0, gap / 2])
+    return _ring_region(np.concatenate([up, -up]))[1]
+
+
+def _mirror_symmetric(groove, scale):
+    """the groove's contour read backwards is the contour with z -> -z (up to rounding of the contour's own construction)"""
+    import numpy as np
+    c = np.array(groove.contour_line.coords)[:, :2]
+    return bool(np.abs(c[::-1] * np.array([-1.0, 1.0]) - c).max() <= 1e-12 * scale)
+
+
 def _capacity(which, polys):
     if not polys:
         return float("nan")
@@ -900,6 +1079,14 @@ def _oracle(ctx, which, groove, gap, rp, w, outcome, geo, fg, replay):
     if not region.buffer(tol).contains(cs):
         ctx.violation(f"{which}-not-contained{closed}", f"outgoing cross-section reaches outside the opening by area "
                       f"{cs.difference(region.buffer(tol)).area}", replay)
+    if which == "two":
+        # ... and within the opening as the STATEMENT describes it (the groove's contour at half the gap above the pass
+        # line and the same roll turned by 180 degrees below it), whatever `contour_lines` of a pass says
+        own = _roll_opening(groove, gap).buffer(tol)
+        if not own.contains(cs):
+            ctx.violation(f"two-not-contained-in-roll-contours{closed}", f"outgoing cross-section reaches outside the roll "
+                          f"contours (groove contour lifted by gap / 2 and the same roll turned by 180 degrees) by area "
+                          f"{cs.difference(own).area} of {cs.area}", replay)
     # 2. exactly the prescribed width (within 1 % over the contours: what they contain)
     weff = min(wexp, cap)
     if which == "two":
@@ -919,17 +1106,28 @@ def _oracle(ctx, which, groove, gap, rp, w, outcome, geo, fg, replay):
     if w is None and abs((cs.bounds[2] - cs.bounds[0] if which == "two" else 2 * _reach(cs, 90)) - uw_pass) > tol:
         ctx.violation(f"{which}-default-width", f"no width prescribed: cross-section width is not the usable width {uw_pass}", replay)
     # 3. symmetry of the pass
-    sd = cs.symmetric_difference(rotate(cs, TURN[which], origin=(0, 0))).area
+    sd = _sd_area(cs, rotate(cs, TURN[which], origin=(0, 0)), scale, 1e-9 * cs.area)
     if sd > 1e-9 * cs.area:
         ctx.violation(f"{which}-symmetry", f"cross-section differs from its image under the {TURN[which]} degree turn by area {sd} "
                       f"of {cs.area}", replay)
+    if _mirror_symmetric(groove, scale):
+        # a groove that is mirror symmetric about its centre line makes the pass mirror symmetric about the vertical axis
+        # as well (two rolls: and about the pass line); for a skew groove the turn above is the ONLY symmetry of the pass
+        ctx.count("symmetry:mirror-checked")
+        from shapely.affinity import scale as scale_
+        sd = _sd_area(cs, scale_(cs, xfact=-1, origin=(0, 0)), scale, 1e-9 * cs.area)
+        if sd > 1e-9 * cs.area:
+            ctx.violation(f"{which}-mirror-symmetry", f"mirror symmetric groove: cross-section differs from its mirror image at "
+                          f"the vertical axis by area {sd} of {cs.area}", replay)
+    else:
+        ctx.count("symmetry:turn-only(skew groove)")
     # 4. the same shape as the constructor builds
     if fg is not None:
         if fg[0] == "raised":
             ctx.violation(f"two-from-groove-raises-pass-accepts{closed}", f"width {wexp}, gap {gap}: from_groove raises {fg[1]} "
                           f"({fg[2]}), the pass returns a profile", replay)
         else:
-            d = cs.symmetric_difference(fg[1]).area
+            d = _sd_area(cs, fg[1], scale, 1e-12 * cs.area)
             if d > 1e-12 * cs.area or any(abs(a - b) > tol for a, b in zip(cs.bounds, fg[1].bounds)):
                 ctx.violation("two-from-groove-differs", f"width {wexp}, gap {gap}: pass cross-section and from_groove differ by "
                               f"area {d}", replay)
@@ -957,6 +1155,9 @@ def _oracle_seed(ctx, which, groove, gap, geo, in_profile, replay):
         ctx.violation(f"{which}-seed-width", f"seeded cross-section has width {e}, usable width {uw}", replay)
     if not region.buffer(tol).contains(cs):
         ctx.violation(f"{which}-seed-not-contained", "seeded cross-section reaches outside the opening", replay)
+    if which == "two" and not _roll_opening(groove, gap).buffer(tol).contains(cs):
+        ctx.violation("two-seed-not-contained-in-roll-contours", "seeded cross-section reaches outside the roll contours (groove "
+                      "contour lifted by gap / 2 and the same roll turned by 180 degrees)", replay)
 
 
 # --------------------------------------------------------------------------------------------------------------
@@ -1030,7 +1231,10 @@ def _scenario_steps(rng, name, which, groove, gap, w, puw, force):
 
 def _scale_desc(desc, f):
     if desc["cls"] == "SplineGroove":
-        return {"cls": "SplineGroove", "points": [[x * f, y * f] for x, y in desc["points"]]}
+        d2 = dict(desc, points=[[x * f, y * f] for x, y in desc["points"]])
+        if d2.get("usable_width") is not None:
+            d2["usable_width"] = desc["usable_width"] * f
+        return d2
     return {"cls": desc["cls"], "kwargs": {k: (v if k in ANGLES else v * f) for k, v in desc["kwargs"].items()}}
 
 
@@ -1050,7 +1254,7 @@ def _other_groove(rng, which, ctx, desc, groove):
                 return d2, _build_groove(d2)
         except Exception as ex:
             ctx.count("groove-rejected:" + type(ex).__name__)
-    r = _random_groove(rng, which, ctx, scale=1.0)
+    r = _random_groove(rng, which, ctx, scale=1.0, skew_p=0.25)
     if r is None:
         return None
     d2 = _scale_desc(r[0], uw / float(r[1].usable_width) * rng.uniform(0.6, 1.6))
@@ -1255,7 +1459,7 @@ def _scenario(ctx, T, which, desc, groove, steps, ip, replay, lean=None, monoton
         cs = outcome[1].cross_section
         if fo[0] == "ok" and cs.geom_type == "Polygon" and not cs.is_empty and cs.is_valid and fo[1].cross_section.is_valid:
             ref = fo[1].cross_section
-            d = cs.symmetric_difference(ref).area
+            d = _sd_area(cs, ref, scale, 1e-12 * ref.area)
             if d > 1e-12 * ref.area or any(abs(a - b) > tol for a, b in zip(cs.bounds, ref.bounds)):
                 ctx.violation(f"{which}-differs-from-fresh-pass", f"width {wexp}, reported gap {gfin}: the out cross-section differs "
                               f"by area {d} (of {ref.area}) from the one of a fresh pass given this gap and width", replay)
@@ -1440,7 +1644,7 @@ def _same_polygon(a, b, tol):
         return a.is_empty and b.is_empty
     if any(abs(x - y) > tol for x, y in zip(a.bounds, b.bounds)):
         return False
-    return a.symmetric_difference(b).area <= 1e-9 * max(a.area, b.area)
+    return _sd_area(a, b, tol * 1e9, 1e-9 * max(a.area, b.area)) <= 1e-9 * max(a.area, b.area)
 
 
 def _group(ctx, T, which, desc, groove, gap, kinds, lean, force=None):
@@ -1470,7 +1674,8 @@ def _group(ctx, T, which, desc, groove, gap, kinds, lean, force=None):
         ctx.disagreement("roll.contour_line and groove.contour_line have different coordinates (hypothesis of two_code_paths_agree)",
                          {"groove": desc})
     monotone = bool((np.diff(gc[:, 0]) > 0).all())
-    ctx.count(f"{which}:{desc['cls']}")
+    ctx.count(f"{which}:{_label(desc)}")
+    ctx.count("contour:mirror-symmetric" if _mirror_symmetric(groove, scale) else "contour:skew")
     ctx.count("gap:zero" if gap == 0 else "gap:positive")
     ctx.count("contour:z-monotone" if monotone else "contour:not-z-monotone")
     srcs = {"rollContour": probe.roll.contour_line, "grooveContour": groove.contour_line}
@@ -1696,7 +1901,7 @@ def _check_lean(ctx, lean):
                     continue
                 if not _same_polygon(mp, geom, tol):
                     ctx.disagreement(f"vertex-list model on `{line}`: polygon differs from the real one (area of the symmetric "
-                                     f"difference {mp.symmetric_difference(geom).area} of {geom.area})", replay)
+                                     f"difference {_sd_area(mp, geom, tol * 1e9, 0.0)} of {geom.area})", replay)
                     ok = False
                 else:
                     ctx.count("vertex-list-model-vertices", len(pts))
@@ -1809,6 +2014,12 @@ def run(ctx):
             desc = {"cls": cls, "kwargs": dict(kw, pad_angle=PAD[which])}
             g = _build_groove(desc)
             _group(ctx, T, which, desc, g, gf * float(g.usable_width), [kind], lean, force=name)
+        for (desc, gf, kinds) in SKEW_CORPUS:
+            g = _build_groove(desc)
+            _group(ctx, T, "two", desc, g, gf * float(g.usable_width), kinds, lean)
+        for (desc, gf, kind, name) in SKEW_SCENARIO_CORPUS:
+            g = _build_groove(desc)
+            _group(ctx, T, "two", desc, g, gf * float(g.usable_width), [kind], lean, force=name)
         for r in HISTORY_CORPUS:
             g = _build_groove(r["groove"])
             ctx.case([r["pass"], r["groove"]["cls"], "history-corpus", json.dumps(r["steps"], sort_keys=True)])
